@@ -204,7 +204,9 @@ def _check(ctx, seed, rng, d, text, ref):
             dd = first_diff(want, got)
             ctx.violation(f"not-faithful/{dd.split(':')[1].strip().split(' ')[0]}/{norm(dd)}", f"{dd}\n--- output\n{r['out'][:1200]}\n{shown}", {**w, "doc": i})
             continue
-        if ordered and not ref.valid(out):
+        # DTD validity is prefix- and placement-sensitive for namespace declarations (xmlns:* must be declared for the
+        # very element that carries it): where the DTD declares attribute namespaces only faithfulness and order are judged
+        if ordered and not d.attr_ns and not ref.valid(out):
             ctx.violation(f"output-not-dtd-valid/{norm(ref.dtd.error_log.last_error.message if ref.dtd.error_log else '?')}", f"{ref.dtd.error_log.last_error if ref.dtd.error_log else ''}\n--- output\n{r['out'][:1200]}\n{shown}", {**w, "doc": i})
     ctx.extra["documents"] = ctx.extra.get("documents", 0) + len(docs)
     if len(ctx.samples) < 2:
